@@ -135,3 +135,8 @@ package opentype
 //@   requires [indices-from-sort] 0 <= i && i < len(out) && 0 <= j && j < len(out)
 //@   ensures [unsigned-tag-order] result == (uint32(out[i]) < uint32(out[j]))
 //@   modifies nothing
+//@ func readOTFEntry C19
+//@   mode bv
+//@   ensures [entry-read-in-full] implies(result1 == nil, readInFull(r, 16))
+//@   ensures [rejects-only-on-read-error] implies(result1 != nil, readFails(r))
+//@   modifies nothing
